@@ -483,3 +483,11 @@ c11_dot_no_broadcast!(c11_t_dot_ne_no_broadcast, BinaryOp::DotNotEqual);
 c11_dot_no_broadcast!(c11_t_dot_le_no_broadcast, BinaryOp::DotLessEq);
 c11_dot_no_broadcast!(c11_t_dot_gt_no_broadcast, BinaryOp::DotGreater);
 c11_dot_no_broadcast!(c11_t_dot_ge_no_broadcast, BinaryOp::DotGreaterEq);
+
+// ------------------------------------------------------------------ % : operand routing only
+// `%` is float remainder; with operands restricted to 3 mantissa bits the two remainder circuits
+// are small.  What is decided is which operands reach the operator, in which order, per element.
+c11_bcast_num!(c11_t_ls_mod, BinaryOp::Modulo, Shape::ListScalar, any_f64_m(3));
+c11_bcast_num!(c11_t_sl_mod, BinaryOp::Modulo, Shape::ScalarList, any_f64_m(3));
+c11_bcast_num!(c11_t_ll_mod, BinaryOp::Modulo, Shape::ListList, any_f64_m(3));
+c11_num_num!(c11_t_ss_mod_m3, BinaryOp::Modulo, any_f64_m(3));
